@@ -6,7 +6,12 @@ SNAP=/tmp/verif-snap
 git -C /verif worktree remove --force $SNAP 2>/dev/null; rm -rf $SNAP
 git -C /verif worktree add --detach $SNAP HEAD >/dev/null 2>&1 || exit 2
 cp -r /verif/lean/.lake $SNAP/lean/.lake
-( cd $SNAP/harness && go build -tags verif -o bin/corr . && go run ./cmd/extract -repo /repo -out $SNAP/lean/Clover/Generated/Facts.lean ) || exit 3
+# a private checkout of /repo's HEAD to patch, so that /repo itself stays untouched while the matrix runs
+export VERIF_REPO=/tmp/repo-matrix
+git -C /repo worktree remove --force $VERIF_REPO 2>/dev/null; rm -rf $VERIF_REPO
+git -C /repo worktree add --detach $VERIF_REPO HEAD >/dev/null 2>&1 || exit 2
+sed -i "s#=> /repo#=> $VERIF_REPO#" $SNAP/harness/go.mod
+( cd $SNAP/harness && go build -tags verif -o bin/corr . && go run ./cmd/extract -repo $VERIF_REPO -out $SNAP/lean/Clover/Generated/Facts.lean ) || exit 3
 ( cd $SNAP/lean && lake build Clover driver 2>&1 | grep -E "error|completed" )
 related() { # property -> checks worth running against a seed of that property
   case $1 in
